@@ -87,6 +87,8 @@ class Monitor:
         if disk_text is None:
             return "file-missing"
         if not self.m.disk_tool_written:
+            if k.missing_syms:
+                return "hand-edited-file-on-disk/unknown-symbols-ignored"
             return "hand-edited-file-on-disk"
         if self.m.disk_origin == "tool-old":
             return "file-of-older-tree-on-disk"
